@@ -113,6 +113,18 @@ def gen_hierarchy(rng):
             own.append({'name': '%s_o' % name.lower(), 'type': scalar_type(),
                         'default': None})
             own[-1]['type'] = ['opt', own[-1]['type']]
+        if parent is not None and rng.random() < 0.2:
+            # recursive hierarchy: holds objects of the root of its own tree
+            rootname = hier[0]['name'] if not roots else None
+            top = parent
+            while top.get('bases'):
+                top = [x for x in classes if x['name'] == top['bases'][0]][0]
+            own.append({'name': '%s_kids' % name.lower(),
+                        'type': rng.choice([['list', ['cls', top['name']]],
+                                            ['opt', ['cls', top['name']]]]),
+                        'default': None})
+            if own[-1]['type'][0] == 'list':
+                del own[-1]['default']
         req = [p for p in c['params'] if 'default' not in p] + \
             [p for p in own if 'default' not in p]
         opt = [p for p in c['params'] if 'default' in p] + \
@@ -124,6 +136,8 @@ def gen_hierarchy(rng):
         if depth < 4:
             nkids = rng.choice([0, 1, 2, 2, 3] if depth < 3 else [0, 0, 1, 2])
         kids = [make(c, depth + 1) for _ in range(nkids)]
+        if rng.random() < 0.15:
+            c['extra'] = True       # with defaults: Optional[...] = None
         if kids and rng.random() < 0.3:
             c['abc'] = True
         elif not kids and rng.random() < 0.08:
@@ -204,28 +218,53 @@ SCALAR_NODES = {
 }
 
 
-def value_node(m, t, rng):
+def concrete_below(m, name):
+    out = []
+    for n in [name] + m.descendants(name):
+        c = m.cspecs[n]
+        if c.get('registered', True) and not m.is_abstract(n) and \
+                n not in out:
+            out.append(n)
+    return out
+
+
+def value_node(m, t, rng, depth=0):
     if isinstance(t, str):
         return rng.choice(SCALAR_NODES[t])
     if t[0] == 'opt':
-        return N.s_null('null') if rng.random() < 0.3 else value_node(
-            m, t[1], rng)
+        if rng.random() < 0.3 or (depth >= 2 and isinstance(
+                t[1], list) and t[1][0] == 'cls' and m.cspecs[t[1][1]].get(
+                    'kind', 'plain') == 'plain'):
+            return N.s_null('null')
+        return value_node(m, t[1], rng, depth)
+    if t[0] == 'list':
+        if depth >= 2:
+            return ['seq', [], S.TAG_SEQ]
+        return ['seq', [value_node(m, t[1], rng, depth)
+                        for _ in range(rng.randint(0, 2))], S.TAG_SEQ]
     if t[0] == 'cls':
         c = m.cspecs[t[1]]
         if c.get('kind') == 'enum':
             return N.s_str(rng.choice(c['members'])) if rng.random() < 0.8 \
                 else N.s_bool('true')
+        if c.get('kind', 'plain') == 'plain':
+            cands = concrete_below(m, t[1])
+            if not cands:
+                return N.s_null('null')
+            return class_doc(m, rng.choice(cands), rng, rng.random() < 0.3,
+                             depth + 1)
         return N.s_str('sv')
     raise ValueError(t)
 
 
-def class_doc(m, cname, rng, with_optional):
+def class_doc(m, cname, rng, with_optional, depth=0):
     c = m.cspecs[cname]
     pairs = []
     for p in c['params']:
         if 'default' in p and not with_optional:
             continue
-        pairs.append([N.s_str(p['name']), value_node(m, p['type'], rng)])
+        pairs.append([N.s_str(p['name']),
+                      value_node(m, p['type'], rng, depth)])
     if c.get('recognize'):
         pairs.append([N.s_str('kind'), N.s_str(cname)])
     return ['map', pairs, S.TAG_MAP]
